@@ -4,6 +4,7 @@ CONSTANTS
   MustBind = {"sender","parent","round","seed","txns","outputs","state","magicblock"}
   HashInput = {"sender","parent","round","seed","txns","outputs","state","magicblock"}
   KeyInObject = FALSE
+  DupShapes <- ShapesTo3And5
   MaxSteps = 4
 
 INVARIANT GPrint
